@@ -8,11 +8,11 @@ ids = [p["id"] for p in props]
 # id -> (engine, technique, level text, level note, design_ref)
 claimed = {
  "C17": ("E+B", "exhaustive operand-pair/triple enumeration of every field against a carry-less reference + explicit-state BFS over ReedSolomonEncoder.Encode histories (state = cached generator list read through a hook)",
-         "Every operand pair of every Galois field the library constructs (and every triple for sizes <= 256) is executed on the real code and compared with an independent reference; polynomial division is enumerated over all divisors/dividends up to a stated degree; the Reed-Solomon encoder is explored as a state machine (BFS to a fixpoint over request orders, exact state key) with syndromes, reference remainder and cache contents checked in every state. Field laws are finite statements, so exhaustive enumeration decides them outright; the unbounded parts (polynomial degree, data length) are covered to stated bounds.",
+         "Every operand pair of every Galois field the library constructs (and every triple for sizes <= 256) is executed on the real code and compared with an independent reference; polynomial division is enumerated over all divisors/dividends up to a stated degree; the Reed-Solomon encoder is explored as a state machine (BFS to a fixpoint over request orders, state key = reflective digest of every field) with syndromes, reference remainder and cache contents checked in every state, and on every 3-symbol data vector of the small fields (a 2-symbol-exhaustive slice of the GF(256) fields). Field laws are finite statements, so exhaustive enumeration decides them outright; the unbounded parts (polynomial degree, data length) are covered to stated bounds.",
          "Trusted: the reference carry-less multiplication in harness/checks/c17.go. Polynomial sweeps are bounded (coefficient counts in evidence.bounds); GF(1024)/GF(4096) associativity follows from equality with the reference ring and is not enumerated.",
          "4.C17"),
  "C18": ("B", "explicit-state BFS over BitList operation sequences (exact concrete state key via hook, clone-based successors), every observer compared with a []bool model after every transition",
-         "All operation sequences up to the stated depth from the empty list, from NewBitList(n) and from lists pre-filled to within k bits of every internal growth and word boundary are executed on the real BitList; Len, every GetBit, GetBytes and the drained IterateBytes channel are compared with a boolean-slice model in every reached state, and the iterator goroutine must be gone. The sequence space is what unit tests cannot sample; bounded exhaustive search over it with an exact state key is the natural decision procedure.",
+         "All operation sequences up to the stated depth from the empty list, from NewBitList(n) and from lists pre-filled to within k bits of every internal growth and word boundary are executed on the real BitList (the observers GetBytes/IterateBytes/GetBit are operations of the alphabet too; the state key digests every struct field by reflection); Len, every GetBit, GetBytes and the drained IterateBytes channel are compared with a boolean-slice model in every reached state, and the iterator goroutine must be gone. The sequence space is what unit tests cannot sample; bounded exhaustive search over it with an exact state key is the natural decision procedure.",
          "Trusted: the []bool model and packing in harness/checks/c18.go; hooks VerifBitListState/VerifBitListClone (read/copy only). Bounds (depth, k) in evidence.bounds.",
          "4.C18"),
 }
@@ -45,22 +45,22 @@ claimed.update({
 
 claimed.update({
  "C09": ("B", "breadth-first exploration of chains of Scale/ScaleWithFill operations over full and relative size windows, every pixel compared with an integer arithmetic reference model",
-         "From one smallest symbol of every encoder family under two colour schemes, every (width,height) in 1..3x+2 and chains of up to 2 (thorough 3) further scalings are executed on the real code and on an integer-only reference model; refusal/acceptance must agree at every step, and bounds, every pixel, Content, Metadata and CheckSum at the end. This covers every residue of the integer factor and of the centring margin, both sides of the error boundary, and already-scaled sources.", "Trusted: the arithmetic model in harness/checks/c09.go (accepts either rounding of an odd margin). Sources are the smallest symbols: Scale only looks at bounds/dimensionality/accessors.", "4.C09"),
+         "From one smallest symbol of every encoder family (and five symbols with >= 100 modules on a sparse window around 1x, 2x, 3x) under two colour schemes, every (width,height) in 1..3x+2 and chains of up to 2 (thorough 3) further scalings are executed on the real code and on an integer-only reference model; refusal/acceptance must agree at every step, and bounds, every pixel, Content, Metadata and CheckSum at the end. This covers every residue of the integer factor and of the centring margin, both sides of the error boundary, and already-scaled sources.", "Trusted: the arithmetic model in harness/checks/c09.go (accepts either rounding of an odd margin). Sources: the smallest symbol of each family plus five large ones; Scale only looks at bounds/dimensionality/accessors.", "4.C09"),
  "C10": ("E", "bounded exhaustive enumeration of every encoder entry point over alphabets, full parameter domains and capacity edges under a recover wrapper + watchdog, against a three-valued representability oracle",
-         "Every call explored by the round-trip enumerations, plus boundary-alphabet words, all 256 PDF417 level bytes, Aztec layers -40..40 x percentages 0..100+, and beyond-capacity inputs, must return, with exactly one of barcode/error, accepting what is representable and refusing what is not (an explicit unspecified band never alarms).", E_NOTE + " Non-termination is decided by a 180 s per-call watchdog.", "4.C10"),
+         "Every call explored by the round-trip enumerations, plus boundary-alphabet words (incl. non-ASCII digits/letters/space), all 256 PDF417 level bytes, Aztec layers -40..40 x percentages 0..100+, runs of non-ASCII characters, beyond-capacity inputs, and the differential rule that what automatic Aztec sizing fits into a size the explicit request for that size must accept, must return, with exactly one of barcode/error, accepting what is representable and refusing what is not (an explicit unspecified band never alarms).", E_NOTE + " Non-termination is decided by a 180 s per-call watchdog.", "4.C10"),
  "C11": ("E", "exhaustive families x WithColor variants x 12 colour schemes x representative contents of every symbol size; every pixel compared by identity with the scheme's two colours and with the plain symbol's module matrix",
-         "The plain symbol is validated by the family's reference decoder (prescribed size, Metadata, Content, black on white); then every colour scheme is rendered and each pixel must be identical to exactly the scheme's foreground or background, give the same module matrix, and ColorModel/ColorScheme/Metadata/Content must report correctly.", E_NOTE, "4.C11"),
+         "The plain symbol is validated by the family's reference decoder (prescribed size, Metadata, Content, black on white) and its module matrix is snapshotted (it must not change when other contents of the family are rendered afterwards); then every colour scheme is rendered and each pixel must be identical to exactly the scheme's foreground or background, give the same module matrix, and ColorModel/ColorScheme/Metadata/Content must report correctly.", E_NOTE, "4.C11"),
  "C12": ("E", "the QR/PDF417/Aztec/DataMatrix enumerations with the decoders' structure records as oracle (declared level, check-codeword counts, zero syndromes, Aztec check bits vs percentage), plus the full Aztec percentage grid",
          "On every decoded symbol the declared level equals the requested one and the carried check codewords are exactly those of the independent ISO tables (verified by zero syndromes after independent de-interleaving); for Aztec, check bits >= pct% of decoded data bits for every percentage 0..100.", E_NOTE, "4.C12"),
  "C13": ("E", "capacity-boundary sweeps against reference capacity models; for Aztec exhaustive refusal check of all smaller explicit layer requests per point",
          "QR version <= reference minimum at cap-1/cap/cap+1 (thorough: every length) of every version x level x mode incl. Auto; DataMatrix size == smallest for the reference ASCII encodation length; every smaller explicit Aztec request is refused; PDF417 padding < one row.", E_NOTE, "4.C13"),
  "C15": ("B", "explicit-state BFS over encode-operation sequences from cold package state (state = both generator caches via hook, exact key, snapshot/restore successors) with fresh-OS-process observations as oracle; exhaustive post-hoc mutation of every []byte argument",
-         "Every operation of a 45-operation alphabet is observed in every reachable cache state (fixpoint) and in all raw sequences up to length 2 (thorough 3) and must equal what a freshly started process returns for the same call; caches must equal reference generators; map-iteration independence is decided structurally; every byte of every slice argument is overwritten after the call and the barcode must not change.", "Trusted: sha256 observation digest; hooks VerifReset/VerifCacheState/VerifRestore; operation alphabet covers every distinct generator degree QR/DataMatrix can request.", "4.C15"),
+         "Every operation of a 62-operation alphabet (incl. 14 refused calls) is observed in every reachable cache state (fixpoint) and in all raw sequences up to length 2 (thorough 3) and must equal what a freshly started process returns for the same call; caches must equal reference generators. All ordered pairs of a per-family input alphabet (about 25 000 depth-2 histories) plus QR cross-mode payload-bit collision pairs are executed back to back: second observation == fresh-process observation, and the barcode returned first is re-observed after the second call (snapshot). About 5 000 short payloads are each encoded 6 times in place (determinism). Map-iteration independence is decided structurally; every byte of every slice argument is overwritten after the call and the barcode must not change.", "Trusted: sha256 observation digest; hooks VerifReset/VerifCacheState/VerifRestore; operation alphabet covers every distinct generator degree QR/DataMatrix can request.", "4.C15"),
 })
 
 claimed.update({
  "C16": ("S", "stateless schedule exploration of the instrumented real code under a hand-written controlled scheduler: DFS over choice sequences with iterative preemption bounding, group-level reduction for cross-call harnesses, exact global-state-key pruning for single-call pipelines; plus a separate free-running -race pass (detector)",
-         "The current /repo sources are mechanically rewritten (go/ast + go/types) so that go statements, channel operations, package sync and every statement of lock-guarded files are scheduling points. S1 explores all interleavings (<= 2, thorough 3 preemptions) of concurrent Encode calls on one generator cache at statement granularity; S2 all pairs (thorough: triples) of top-level QR/DataMatrix/Scale calls from cold package state; S3 every schedule of each goroutine pipeline inside a call (iterateModules, alphanumeric producer incl. all error paths, IterateBytes+splitToBlocks, whole qr.Encode calls). On every complete schedule: no panic, no deadlock, no goroutine left parked, each call's result equals its sequential / fresh-process result, caches equal reference generators. Every reported schedule is replayed twice with identical traces before it is believed.",
+         "The current /repo sources are mechanically rewritten (go/ast + go/types) so that go statements, channel operations, package sync and every statement of lock-guarded files are scheduling points. Go statements (with arguments), channel operations, package sync (Mutex, RWMutex, WaitGroup, Once, Pool, Map) and every statement of functions that touch lock-guarded or run-time-written package-level state are scheduling points; such state is reset before every execution. S1 explores all interleavings (<= 2, thorough 3 preemptions) of concurrent Encode calls on one generator cache at statement granularity; S2 all pairs (thorough: triples) of top-level QR/DataMatrix/Scale calls from cold package state and, for every encoder family, two different calls of that family against each other; S3 every schedule of each goroutine pipeline inside a call (iterateModules, alphanumeric producer incl. all error paths, IterateBytes+splitToBlocks, whole qr.Encode calls incl. capacity-filling, tied-mask and refused ones), preceded by reversed/rotated-order probes. On every complete schedule: no panic, no deadlock, no goroutine left parked, each call's result equals its sequential / fresh-process result, caches equal reference generators. Every reported schedule is replayed twice with identical traces before it is believed.",
          "Data races on memory the scheduler does not instrument, and weak memory orderings, are outside the family: S4 (free-running -race pass over {mixed, qr, rs} x goroutines {2,8,64} x GOMAXPROCS {1,2,4,16}, fresh process each) complements as a sampling detector and can only add violations. Preemption bounds and the state-key soundness premise (threads of one call interact only through hooked operations) are stated in evidence.",
          "4.C16"),
 })
